@@ -140,6 +140,7 @@ func WrapHandler(waf coraza.WAF, h http.Handler) http.Handler {
 			tx.DebugLogger().Error().Err(err).Msg("Failed to process request")
 			return
 		} else if it != nil {
+			setRedirectLocation(w.Header(), it)
 			w.WriteHeader(obtainStatusCodeFromInterruptionOrDefault(it, http.StatusOK))
 			return
 		}
@@ -159,15 +160,38 @@ func WrapHandler(waf coraza.WAF, h http.Handler) http.Handler {
 }
 
 // obtainStatusCodeFromInterruptionOrDefault returns the desired status code derived from the interruption
-// on a "deny" action or a default value.
+// on a "deny", "redirect" or "drop" action or a default value.
 func obtainStatusCodeFromInterruptionOrDefault(it *types.Interruption, defaultStatusCode int) int {
-	if it.Action == "deny" {
+	switch it.Action {
+	case "deny":
 		statusCode := it.Status
 		if statusCode == 0 {
 			statusCode = 403
 		}
 
 		return statusCode
+	case "redirect":
+		// the target goes into the Location header, see setRedirectLocation
+		statusCode := it.Status
+		if statusCode == 0 {
+			statusCode = http.StatusFound
+		}
+		return statusCode
+	case "drop":
+		// the connection cannot be dropped from here: the request is refused instead of being
+		// answered with the default (success) status
+		statusCode := it.Status
+		if statusCode == 0 {
+			statusCode = 403
+		}
+		return statusCode
 	}
 	return defaultStatusCode
+}
+
+// setRedirectLocation sets the Location header of the response to an interruption raised by a redirect action.
+func setRedirectLocation(h http.Header, it *types.Interruption) {
+	if it.Action == "redirect" && it.Data != "" {
+		h.Set("Location", it.Data)
+	}
 }
